@@ -42,7 +42,8 @@ def canonical(spec, outcome, trace, b):
         for n, o in comp.outputs.items():
             if o.has_targets:
                 infos[f"{c['name']}>{n}"] = {**o.info.as_dict(), "time": str(o.info.time)}
-    times = {c["name"]: hs.mins(b.comps[c["name"]].time) for c in spec["comps"] if c["kind"] == "model"}
+    with S.tick_of(spec):
+        times = {c["name"]: hs.mins(b.comps[c["name"]].time) for c in spec["comps"] if c["kind"] == "model"}
     return {"outcome": "ok", "times": times, "series": series, "infos": infos}
 
 
